@@ -71,8 +71,13 @@ def gen_case(rng):
             universe, w, keys_mode = list(assets), dict(calm_w), 'universe'
         steps.append({'quotes': quotes, 'universe': universe, 'weights': w, 'keys_mode': keys_mode})
     seed_holdings = {a: rng.choice([1, -1]) * rng.randint(1, 500) for a in assets if rng.random() < 0.5}
+    if rng.random() < 0.3:
+        # several positions of exactly the same size (e.g. round lots): dropped together they give equal sell orders
+        q0 = rng.choice([100, 250, rng.randint(1, 500)])
+        for a in rng.sample(assets, rng.randint(2, n)):
+            seed_holdings[a] = q0
     fee = ['zero'] if rng.random() < 0.5 else ['pct', rng.choice([0.001, 0.01]), rng.choice([0.0, 0.005])]
-    return {'assets': assets, 'long_only': long_only, 'buffer': rng.choice([0.0, 0.05, 0.3]),
+    return {'via_qts': rng.random() < 0.5, 'assets': assets, 'long_only': long_only, 'buffer': rng.choice([0.0, 0.05, 0.3]),
             'leverage': rng.choice([0.5, 1.0, 2.0]), 'fee': fee,
             'cash': float(rng.choice([1e7, 2.5e7, 1e8])) if calm else float(rng.choice([1e5, 1e6, 2.5e7])),
             'seed_holdings': {} if calm else seed_holdings, 'steps': steps, 'calm': calm,
@@ -115,6 +120,12 @@ def run_case(case, acc):
     else:
         sizer = LongShortLeveragedOrderSizer(broker, 'P', book, gross_leverage=case['leverage'])
     pcm = PortfolioConstructionModel(broker, 'P', uni, sizer, FixedWeightPortfolioOptimiser(), alpha_model=alpha)
+    qts = None
+    if case.get('via_qts'):
+        # the whole trading system: portfolio construction and the execution handler that submits its orders
+        from qstrader.system.qts import QuantTradingSystem
+        kw = {'cash_buffer_percentage': case['buffer']} if case['long_only'] else {'gross_leverage': case['leverage']}
+        qts = QuantTradingSystem(uni, broker, 'P', book, alpha, long_only=case['long_only'], submit_orders=True, **kw)
     tr = sesswl.Trace()
     sesswl.CUR[0] = tr
     stats = {'target_allocations': []}
@@ -132,11 +143,27 @@ def run_case(case, acc):
             broker.update(t)
             uni.assets = list(st['universe'])
             alpha.w = dict(st['weights'])
+            n_before = len(tr.pcm)
             try:
-                orders = pcm(t, stats=stats)
+                if qts is not None:
+                    qts(t, stats=stats)
+                    orders = []
+                    acc.count('C09:rebalances_through_the_trading_system')
+                else:
+                    orders = pcm(t, stats=stats)
             except ValueError as e:
                 # only legitimate for negative equity / nothing: not generated; report
                 raise Violation('C09', 'pcm-raised/ValueError', 'portfolio construction raised %r at step %d' % (e, i), {})
+            except Exception as e:
+                if core.from_repo(e):
+                    raise Violation('C09', 'rebalance-raised/%s' % type(e).__name__, 'the rebalance at step %d (universe %s, weights %s, '
+                                    'held %s) raised %r' % (i, st['universe'], st['weights'],
+                                                            {a: d['quantity'] for a, d in broker.get_portfolio_as_dict('P').items()}, e), {})
+                raise
+            if len(tr.pcm) == n_before:
+                raise Violation('C09', 'no-portfolio-construction', 'the trading system was asked to rebalance at step %d (universe %s, '
+                                'held %s) and no portfolio construction took place' % (
+                                    i, st['universe'], {a: d['quantity'] for a, d in broker.get_portfolio_as_dict('P').items()}), {})
             rec = tr.pcm[-1]
             sesswl.check_c09_record(rec, acc)
             acc.see('C09:alpha_key_modes', st['keys_mode'])
